@@ -728,7 +728,11 @@ def _tables_and_rules(run, R, prefixes):
         m = types.SimpleNamespace(__name__=n)
         act = 'none'
         for i, rule in enumerate(config.CONVERSION_RULES):
-            a = rule.get_action(m)
+            try:
+                a = rule.get_action(m)
+            except Exception as e:  # noqa
+                act = 'raised ' + type(e).__name__
+                break
             if a == config.Action.CONVERT:
                 act = 'convert'; hits[i] = hits.get(i, 0) + 1; break
             if a == config.Action.DO_NOT_CONVERT:
@@ -793,43 +797,46 @@ def _predicates(run, R, bases):
         if zoo.cacheable_by_python(f) != F['cacheable']:
             raise common.InfraError('recipe %s declares cacheable=%s' % (base, F['cacheable']))
         run.case(('pred', base), True)
-        if bool(inspect_utils.isbuiltin(f)) != (F['builtin'] != 'notBuiltin'):
-            note('isbuiltin', base, 'isbuiltin=%s' % inspect_utils.isbuiltin(f))
-        if F['builtin'] != 'notBuiltin':
-            if (py_builtins.overload_of(f) is not f) != (F['builtin'] == 'overloaded'):
-                note('overload_of', base, 'overload_of gives %r' % (py_builtins.overload_of(f),))
-        if bool(inspect_utils.isconstructor(f)) != bool(F['ctor']) and F['builtin'] == 'notBuiltin':
-            note('isconstructor', base, 'isconstructor=%s' % inspect_utils.isconstructor(f))
-        if bool(api.is_autograph_artifact(f)) != bool(F['artifact']):
-            note('is_autograph_artifact', base, '')
-        e = F['ent']
-        if e != 'opaque':
-            if bool(inspect_utils.isnamedtuple(f)) != bool(e[9]):
-                note('isnamedtuple', base, '')
-            if e[6]:   # a method: owner resolution
-                owner = inspect_utils.getmethodclass(f)
-                if (owner is not None) != bool(e[7]):
-                    note('getmethodclass', base, 'owner=%r' % (owner,))
-                elif owner is not None:
-                    dc = inspect_utils.getdefiningclass(f, owner)
-                    want_mod = e[12][1]
-                    if dc.__module__.split('.') != want_mod:
-                        note('getdefiningclass', base, 'defining class %r in %s, recipe says %s' % (dc, dc.__module__, want_mod))
-        if F['builtin'] == 'notBuiltin':
-            unsup = bool(conversion.is_unsupported(f))
-            if unsup != bool(F['wrapt'] or F['lru'] or F['ctor'] or F['known'] or F['tf']):
-                note('is_unsupported', base, 'is_unsupported=%s' % unsup)
-            lines.append('c13.unsup ' + sexp(zoo.desc_sexp(F))); expect.append(sexp(unsup)); what.append(('unsup', base))
+        try:     # an exception escaping a predicate of the implementation is an observation, not the end of the run
+            if bool(inspect_utils.isbuiltin(f)) != (F['builtin'] != 'notBuiltin'):
+                note('isbuiltin', base, 'isbuiltin=%s' % inspect_utils.isbuiltin(f))
+            if F['builtin'] != 'notBuiltin':
+                if (py_builtins.overload_of(f) is not f) != (F['builtin'] == 'overloaded'):
+                    note('overload_of', base, 'overload_of gives %r' % (py_builtins.overload_of(f),))
+            if bool(inspect_utils.isconstructor(f)) != bool(F['ctor']) and F['builtin'] == 'notBuiltin':
+                note('isconstructor', base, 'isconstructor=%s' % inspect_utils.isconstructor(f))
+            if bool(api.is_autograph_artifact(f)) != bool(F['artifact']):
+                note('is_autograph_artifact', base, '')
+            e = F['ent']
             if e != 'opaque':
-                al = bool(conversion.is_allowlisted(f))
-                if al != R.ent_allowlisted(e):
-                    note('is_allowlisted', base, 'is_allowlisted=%s, documented rules give %s' % (al, R.ent_allowlisted(e)))
-                lines.append('c13.allow %s True False' % sexp(e)); expect.append(sexp(al)); what.append(('allow', base))
-        # negative cache takes effect exactly for hashable + weak-referenceable entities
-        conversion.cache_allowlisted(f, opts)
-        if bool(conversion.is_in_allowlist_cache(f, opts)) != bool(F['cacheable']):
-            note('cache_allowlisted', base, 'remembered=%s' % conversion.is_in_allowlist_cache(f, opts))
-    for k in ('isbuiltin', 'overload_of', 'isconstructor', 'is_autograph_artifact', 'isnamedtuple', 'getmethodclass',
+                if bool(inspect_utils.isnamedtuple(f)) != bool(e[9]):
+                    note('isnamedtuple', base, '')
+                if e[6]:   # a method: owner resolution
+                    owner = inspect_utils.getmethodclass(f)
+                    if (owner is not None) != bool(e[7]):
+                        note('getmethodclass', base, 'owner=%r' % (owner,))
+                    elif owner is not None:
+                        dc = inspect_utils.getdefiningclass(f, owner)
+                        want_mod = e[12][1]
+                        if dc.__module__.split('.') != want_mod:
+                            note('getdefiningclass', base, 'defining class %r in %s, recipe says %s' % (dc, dc.__module__, want_mod))
+            if F['builtin'] == 'notBuiltin':
+                unsup = bool(conversion.is_unsupported(f))
+                if unsup != bool(F['wrapt'] or F['lru'] or F['ctor'] or F['known'] or F['tf']):
+                    note('is_unsupported', base, 'is_unsupported=%s' % unsup)
+                lines.append('c13.unsup ' + sexp(zoo.desc_sexp(F))); expect.append(sexp(unsup)); what.append(('unsup', base))
+                if e != 'opaque':
+                    al = bool(conversion.is_allowlisted(f))
+                    if al != R.ent_allowlisted(e):
+                        note('is_allowlisted', base, 'is_allowlisted=%s, documented rules give %s' % (al, R.ent_allowlisted(e)))
+                    lines.append('c13.allow %s True False' % sexp(e)); expect.append(sexp(al)); what.append(('allow', base))
+            # negative cache takes effect exactly for hashable + weak-referenceable entities
+            conversion.cache_allowlisted(f, opts)
+            if bool(conversion.is_in_allowlist_cache(f, opts)) != bool(F['cacheable']):
+                note('cache_allowlisted', base, 'remembered=%s' % conversion.is_in_allowlist_cache(f, opts))
+        except Exception as e:  # noqa
+            note('raised', base, '%s: %s' % (type(e).__name__, str(e)[:120]))
+    for k in ('raised', 'isbuiltin', 'overload_of', 'isconstructor', 'is_autograph_artifact', 'isnamedtuple', 'getmethodclass',
               'getdefiningclass', 'is_unsupported', 'is_allowlisted', 'cache_allowlisted'):
         run.oblige('correspondence:predicate.' + k, 'correspondence', k not in bad, json.dumps(bad.get(k, [])[:4]))
     if run.driver_ok:
@@ -1012,7 +1019,8 @@ def _run_cases(run, R, cases):
                 if not remembered or obs['again_attempts'] or obs['again_warnings']:
                     run.fail('fallback: the failure is not remembered (in negative cache: %s; next call: %d conversion attempts, %d warnings)' %
                              (remembered, obs['again_attempts'], obs['again_warnings']), dict(cj, observed=_brief(obs)),
-                             CLS_UNCACHEABLE if (m and m['uncacheable']) else None)
+                             # the finding is only about a fallback that is NOT REMEMBERED; a call that misbehaves otherwise is not absorbed
+                             CLS_UNCACHEABLE if (m and m['uncacheable'] and same and obs['warnings'] >= 1) else None)
                 if obs['again'][0] == 'ok' and obs['direct'][0] == 'ok' and obs['again'] != obs['direct'] and b.sig == 'std':
                     run.fail('fallback: the next call gives a different result', dict(cj, observed=_brief(obs)), None)
             elif should_convert:
